@@ -60,12 +60,22 @@ struct Client {
 }
 
 impl Client {
+    /// A full accept queue drops the SYN; the client retries, as TCP does.
     fn open(net: &Arc<SimNet>, listener: usize) -> Option<Client> {
-        net.connect(listener).map(|id| Client {
-            net: net.clone(),
-            id,
-            rx: Vec::new(),
-        })
+        let t0 = Instant::now();
+        loop {
+            if let Some(id) = net.connect(listener) {
+                return Some(Client {
+                    net: net.clone(),
+                    id,
+                    rx: Vec::new(),
+                });
+            }
+            if t0.elapsed() > Duration::from_secs(10) {
+                return None;
+            }
+            std::thread::sleep(Duration::from_millis(1));
+        }
     }
     fn send(&self, r: &Request) {
         self.net.deliver(self.id, &r.encode());
